@@ -430,6 +430,65 @@ def job_empty(label, n, Kc, position="last", timeout_q=20.0):
     return res
 
 
+def job_float_long(label):
+    """CONCRETE float64 witnesses on long inputs (not solver-decided; exact arithmetic cannot see under/overflow of sums and products
+    over many samples): saturated and constant predictions of 96 / 1500 rows through the real evaluate -- finite, zero at independence,
+    unchanged by an empty cluster.  Complements the symbolic closed / indep / empty jobs, whose shapes are small."""
+    res = _new()
+    for rep_ in _float_long_cases(label):
+        res["paths"] += 1
+        bad = replay(rep_)
+        res["obligations"].append({"name": f"float-long/{label}/{rep_['case']}", "verdict": "sat" if bad else "unsat", "how": "concrete float64 run"})
+        if bad and not res["violations"]:
+            res["violations"].append({"signature": f"{PROP}:{label}:float-long", "what": f"{label}: {rep_['case']} -- score/gradient not finite, not zero at independence or changed by an empty cluster on a long input", "replay": rep_})
+    res["samples"].append({"cases": res["paths"]})
+    return res
+
+
+def _float_long_cases(label):
+    return [{"kind": "float-long", "label": label, "case": c} for c in ("onehot-K2-n96", "onehot-K3-n96", "onehot-K3-n96-empty-middle", "constant-K3-n1500", "soft-K2-n1500")]
+
+
+def _float_long_run(rep, verbose):
+    label, case = rep["label"], rep["case"]
+    gem, gk, ovo = cg.build(label, symbolic=False)
+    rng = np.random.RandomState(0)
+    Kc = 2 if "K2" in case else 3
+    n = int(case.split("-n")[1].split("-")[0])
+    if case.startswith("onehot"):
+        P = np.tile(np.eye(Kc), (n // Kc, 1))
+    elif case.startswith("constant"):
+        P = np.tile(np.array([[0.2, 0.3, 0.5]]), (n, 1))
+    else:
+        z = rng.normal(size=(n, Kc))
+        P = np.exp(z) / np.exp(z).sum(1, keepdims=True)
+    n = len(P)
+    A = None
+    if gk in ("mmd", "w"):
+        if n > 200 and gk == "w":
+            return False      # POT on 1500 x 1500: minutes; the saturated 96-row cases cover the transport objectives
+        x = rng.normal(size=(n, 2))
+        D = np.sqrt(((x[:, None, :] - x[None, :, :]) ** 2).sum(-1))
+        A = x @ x.T if gk == "mmd" else D
+    with np.errstate(all="ignore"):
+        S, G = gem.evaluate(P.copy(), A, return_grad=True)
+        S0 = float(gem.evaluate(P.copy(), A))
+        bad = not (np.isfinite(S) and np.isfinite(S0) and np.all(np.isfinite(np.asarray(G, dtype=float))))
+        why = "non-finite" if bad else ""
+        if not bad and case.startswith("constant"):
+            tgt = 0.5 if gk == "chi2" else 0.0
+            bad = abs(S0 - tgt) > 1e-7
+            why = f"score {S0} at independence"
+        if not bad and "empty" in case:
+            P2 = np.insert(P, 1, 0.0, axis=1)
+            S2, G2 = gem.evaluate(P2.copy(), A, return_grad=True)
+            bad = not (abs(float(S2) - S0) <= 1e-8 * (1 + abs(S0))) or not np.all(np.asarray(G2, dtype=float)[:, 1] == 0)
+            why = f"score {S0} -> {S2} with an empty cluster in the middle"
+    if verbose:
+        print(label, case, "score", S, S0, why or "ok")
+    return bad
+
+
 def job_hard_mi(Kc, reps=1, timeout_q=30.0):
     """balanced hard K-partition: |MI - log K| <= 1e-9 (concrete one-hot P, log-of-constant enclosures in the solver)"""
     loader.install()
@@ -509,6 +568,8 @@ def _closed_P(model, n, Kc):
 def replay(rep, verbose=False):
     kind = rep["kind"]
     model = {k: Fraction(v) for k, v in rep.get("model", {}).items()}
+    if kind == "float-long":
+        return _float_long_run(rep, verbose)
     if kind == "hardmi":
         gem, _, _ = cg.build("MI", symbolic=False)
         Kc, reps = rep["K"], rep["reps"]
@@ -523,10 +584,18 @@ def replay(rep, verbose=False):
     gem, gk, ovo = cg.build(label, symbolic=False)
     P0, A0 = cg.concrete_inputs(model, n, Kc, gk)
     with np.errstate(all="ignore"):
+        cands = []
         for A in cg.affinity_candidates(gk, n, A0):
+            cands.append((A, 1))
+        if kind in ("closed", "indep", "bounds", "empty") and not rep.get("pattern"):
+            # the same rows repeated to a long input: sums / products over the samples that under- or overflow in floats only show there
+            cands += [(A, -(-96 // n)) for A, _ in cands[:2]]
+        for A, tile in cands:
             if rep.get("pattern"):
                 idx = np.asarray(rep["pattern"])
                 P0l, A = P0[idx], (None if A is None else A[np.ix_(idx, idx)])
+            elif tile > 1:
+                P0l, A = np.tile(P0, (tile, 1)), (None if A is None else np.tile(A, (tile, tile)))
             else:
                 P0l = P0
             if kind == "perm":
@@ -542,32 +611,32 @@ def replay(rep, verbose=False):
                 if verbose:
                     print("S", S, "S(permuted)", S2, "max grad diff", np.max(np.abs(np.asarray(G)[sg][:, tau] - np.asarray(G2))))
             elif kind == "indep":
-                P = np.repeat(P0[:1], n, axis=0)
+                P = np.repeat(P0[:1], len(P0l), axis=0)
                 S = float(gem.evaluate(P, A))
                 tgt = 0.5 if gk == "chi2" else 0.0
                 bad = abs(S - tgt) > 1e-7
                 if verbose:
                     print("P rows all", P[0].tolist(), "score", S, "expected", tgt)
             elif kind == "bounds":
-                S = float(gem.evaluate(P0, A))
+                S = float(gem.evaluate(P0l, A))
                 lo = 0.5 if gk == "chi2" else 0.0
                 bad = S < lo - 1e-9 or (gk in ("tv", "h2") and S > 1 + 1e-9)
                 if verbose:
                     print("score", S)
             elif kind == "closed":
-                P = _closed_P(model, n, Kc)
+                P = np.tile(_closed_P(model, n, Kc), (max(tile, 1), 1))
                 S, G = gem.evaluate(P.copy(), A, return_grad=True)
-                bad = (not np.isfinite(S)) or (not np.all(np.isfinite(np.asarray(G, dtype=float))))
+                bad = (not np.isfinite(S)) or (not np.isfinite(float(gem.evaluate(P.copy(), A)))) or (not np.all(np.isfinite(np.asarray(G, dtype=float))))
                 if verbose:
                     print("P", P.tolist(), "score", S, "grad", np.asarray(G).tolist())
             elif kind == "empty":
-                z = np.zeros((n, 1))
-                P2 = np.concatenate([P0, z], axis=1) if rep.get("position", "last") == "last" else np.concatenate([z, P0], axis=1)
+                z = np.zeros((len(P0l), 1))
+                P2 = np.concatenate([P0l, z], axis=1) if rep.get("position", "last") == "last" else np.concatenate([z, P0l], axis=1)
                 col = Kc if rep.get("position", "last") == "last" else 0
-                S = float(gem.evaluate(P0.copy(), A))
+                S = float(gem.evaluate(P0l.copy(), A))
                 S2, G2 = gem.evaluate(P2.copy(), A, return_grad=True)
                 G2 = np.asarray(G2, dtype=float)
-                bad = (not np.all(G2[:, col] == 0)) or abs(float(S2) - S) > 2e-9 * (1.0 + abs(S))
+                bad = (not np.all(G2[:, col] == 0)) or not (abs(float(S2) - S) <= 2e-9 * (1.0 + abs(S)))
                 if verbose:
                     print("score", S, "with empty cluster", S2, "gradient of the empty column", G2[:, col].tolist())
             else:
@@ -607,6 +676,8 @@ def jobs(tier):
             out.append({"name": f"closed/{lab}/n2K3", "target": "checks.c13:job_closed", "kwargs": dict(label=lab, n=2, Kc=3, max_paths=6000), "timeout": 3000})
         out.append({"name": f"empty-last/{lab}/n2K2", "target": "checks.c13:job_empty", "kwargs": dict(label=lab, n=2, Kc=2), "timeout": 240 if q else 1200})
         out.append({"name": f"empty-first/{lab}/n2K2", "target": "checks.c13:job_empty", "kwargs": dict(label=lab, n=2, Kc=2, position="first"), "timeout": 240 if q else 1200})
+    for lab in labs:
+        out.append({"name": f"float-long/{lab}", "target": "checks.c13:job_float_long", "kwargs": dict(label=lab), "timeout": 280})
     for Kc, reps in [(2, 1), (3, 1), (2, 2)] + ([] if q else [(4, 1), (3, 2)]):
         out.append({"name": f"hardMI/K{Kc}x{reps}", "target": "checks.c13:job_hard_mi", "kwargs": dict(Kc=Kc, reps=reps), "timeout": 120})
     return out
